@@ -19,6 +19,9 @@ cAmp == {R(0), R(1), R(2)}
 cAmpWide == {R(0), R(1), R(5)}
 cDet == {R(0-1), R(0), R(1)}
 cDetWide == {R(0-3), R(0), R(2)}
+cAmp2 == {R(0), R(2)}
+cDet2 == {R(0-1), R(1)}
+cGrids5q == cGrids(5, cDtsQuick)
 cRegSingle == {<< <<"a">>, {"a"} >>}
 cRegMulti == {<< <<"a", "b", "c">>, {"a", "b", "c"} >>, << <<"a", "b", "c">>, {"b"} >>,
               << <<"a", "b", "c">>, {"a", "c"} >>, << <<"a", "b">>, {"b"} >>}
